@@ -101,3 +101,26 @@ func D11() Scenario {
 		Pubs:     []PubSpec{{Topic: 0, Calls: 1, Batch: 1}},
 		ParkHook: "gochannel.publish.wait_ack", ParkOp: "subscribe"}
 }
+
+// NestedFan: blocking mode, a subscriber that publishes to many other topics of the same Pub/Sub from its receive loop
+// before acking ("also when subscribers publish from their receive loop") - every one of those calls must return.
+func NestedFan(seed uint64, fan int) Scenario {
+	return Scenario{Buf: 0, Blocking: true, Seed: seed, Wait: 10 * 1000 * 1000 * 1000,
+		Subs: []SubSpec{{Topic: 0, CancelAtRecv: -1, NestedTopic: -1, NestedFan: fan}},
+		Pubs: []PubSpec{{Topic: 0, Calls: 1, Batch: 1}}}
+}
+
+// BigBacklog: persistent mode with a backlog of well over a thousand messages (the property quantifies over all message
+// counts): one subscription arrives while the publisher is still running and the backlog is already large, one after
+// the publisher finished.
+func BigBacklog(seed uint64) Scenario {
+	calls := 160 + int(seed%100)
+	if calls*8%1000 == 0 {
+		calls++
+	}
+	return Scenario{Buf: 4, Persistent: true, Seed: seed, Big: true,
+		Subs: []SubSpec{
+			{Topic: 0, Phase: 1, AfterPubs: calls - 25, CancelAtRecv: -1, NestedTopic: -1},
+			{Topic: 0, Phase: 2, CancelAtRecv: -1, NestedTopic: -1}},
+		Pubs: []PubSpec{{Topic: 0, Calls: calls, Batch: 8}}}
+}
